@@ -58,6 +58,26 @@ type Episode struct {
 	Writer string       `json:"writer,omitempty"` // plain-reps
 	Reps   int          `json:"reps,omitempty"`
 	Procs  int          `json:"procs,omitempty"`
+	// BuildOrder != 0: the list under test is built (document read, transformations applied) while every map range
+	// runs in a seeded non-sorted order; the references are built under the default order. What reaches the writer
+	// must not depend on the iteration order inside the reader or a transformation either.
+	BuildOrder uint64 `json:"build_order,omitempty"`
+}
+
+// buildUnderOrder builds the episode's list with the map-order seam driven by a generator seeded with seed.
+func buildUnderOrder(src ListSource, seed uint64) *astisub.Subtitles {
+	if seed == 0 || !hooks.Instrumented {
+		return src.Build()
+	}
+	r := prng.New(seed)
+	hooks.SetMapOrder(func(site, n int) []int {
+		if n < 2 {
+			return nil
+		}
+		return r.Perm(n)
+	})
+	defer hooks.SetMapOrder(nil)
+	return src.Build()
 }
 
 var (
@@ -207,7 +227,10 @@ func CheckEpisode(ep Episode) (*Violation, []callResult) {
 		}
 		refs[c.Writer] = invoke(s, c.Writer, Env{})
 	}
-	s := ep.Source.Build()
+	s := buildUnderOrder(ep.Source, ep.BuildOrder)
+	if s == nil {
+		return nil, nil
+	}
 	var results []callResult
 	for i, c := range ep.Calls {
 		r := invokeSink(s, c.Writer, c.Env, c.SinkFault, c.Sink)
@@ -547,6 +570,22 @@ func RunC19(cfg Config) (*ShardResult, error) {
 			}
 		}
 	}
+	// (d2) the list itself built under seeded map orders (documents read by the library, transformation pipelines)
+	for si, src := range mine {
+		if src.Spec != nil && len(src.Ops) == 0 || src.Many > 0 {
+			continue // built in code without any library call
+		}
+		for k := 1; k <= 4; k++ {
+			var calls []Invocation
+			for _, w := range api.WriterFormats {
+				calls = append(calls, Invocation{Writer: w})
+			}
+			res.Probes["list_built_under_seeded_map_order"]++
+			if run(Episode{Kind: "episode", Source: src, Calls: calls, BuildOrder: Key64("build-order", fmt.Sprint(cfg.Seed), fmt.Sprint(si), fmt.Sprint(k)) | 1}) {
+				return res, nil
+			}
+		}
+	}
 	// (e) plain build, native map randomisation: every (list, writer) written reps times in each of procs fresh processes
 	if err := c19PlainStage(cfg, lim, mine, res); err != nil {
 		res.Notes = append(res.Notes, "plain-build repetition stage skipped: "+err.Error())
@@ -623,7 +662,9 @@ func runChildren(cfg Config, bin string, req plainReq, procs int) ([]plainResp, 
 	var out []plainResp
 	// "in the same process or in another": the other processes also differ in what a process inherits from its
 	// environment (time zone, locale); when the zone database is missing the TZ values simply mean UTC
-	envs := [][]string{{"TZ=UTC", "GOMAXPROCS=1"}, {"TZ=Pacific/Kiritimati", "LANG=fr_FR.UTF-8", "LC_ALL=fr_FR.UTF-8", "GOMAXPROCS=8"}, {"TZ=Pacific/Honolulu", "LANG=C", "GOMAXPROCS=3", "HOME=/nonexistent", "TMPDIR=" + dir}}
+	envs := [][]string{{"TZ=UTC", "GOMAXPROCS=1", "LANG=en_US.UTF-8", "LC_ALL=en_US.UTF-8", "LC_MESSAGES=en_US.UTF-8", "LANGUAGE=en"},
+		{"TZ=Pacific/Kiritimati", "LANG=fr_FR.UTF-8", "LC_ALL=fr_FR.UTF-8", "LC_MESSAGES=fr_FR.UTF-8", "LANGUAGE=fr", "GOMAXPROCS=8"},
+		{"TZ=Pacific/Honolulu", "LANG=ja_JP.UTF-8", "LC_ALL=ja_JP.UTF-8", "LC_MESSAGES=ja_JP.UTF-8", "LANGUAGE=ja", "GOMAXPROCS=3", "HOME=/nonexistent", "TMPDIR=" + dir, "USER=nobody", "HOSTNAME=elsewhere"}}
 	dirs := []string{"", "/", dir} // current directory
 	for p := 0; p < procs; p++ {
 		cmd := exec.Command(bin, "-mode", "child", "-child", reqPath)
